@@ -156,11 +156,13 @@ def string_cases(ctx, r):
     words = ["hello", "wor ld", "say \"hi\"", "x", "é€", "tab\\there", "a'b", "{}"]
     for _ in range(600 if ctx.quick else 5000):
         ind = r.choice([0, 2, 4, 8])
-        nl = r.range(1, 4)
+        nl = r.range(1, 5)
         lines, exp = [], []
         for i in range(nl):
-            if r.chance(15) and 0 < i < nl - 1:
-                lines.append("")
+            if r.chance(22) and 0 < i < nl - 1:
+                # a blank line; it may carry spaces, at most as many as the block is indented by
+                # (whichever way indentation is stripped, nothing of such a line is left)
+                lines.append(" " * r.choice([0, 0, min(1, ind), ind // 2, ind]))
                 exp.append("")
                 continue
             # the least indented content line sits at the closer's indentation, so that "strip the
